@@ -428,6 +428,137 @@ def hostile_names(bench, table, only=None):
     return res, n_eval
 
 
+ATTR_FLAGS = [(), ("-C",), ("-T",), ("-X",), ("-O",), ("-C", "-O", "-T", "-X")]
+
+
+def hostile_walks(bench, table, only=None, workers=4):
+    """Entry points "the walks of the unpacker" (restore_fstree.c: create_node_dfs, set_attribs; fill_files.c:
+    gen_file_list_dfs): every walk turns entry names into paths, so every walk must put EVERY name - of whatever inode
+    kind - through is_filename_sane first.  The attribute walk only runs with --chmod/--chown/--set-times/--set-xattr.
+    Images (vlib/sqfsimg.py) whose directory `sub` holds one entry named at the case splits of is_filename_sane, as a
+    regular file / symbolic link / fifo / directory, between siblings with distinctive modes and time stamps; unpacked
+    with each option set of ATTR_FLAGS.  Expected from the extracted is_filename_sane_model:
+      name not sane => same observable result (exit status; type, mode, content, link target and - with -T - time stamp
+                       of everything unpacked) as the same image WITHOUT that entry: the reference goes through the same
+                       tool with the same options, nothing about modes/umask/ownership is assumed;
+      name sane     => exit status 0, the entry exists, carries the image's mode with -C and its time stamp with -T."""
+    import stat as St
+    from vlib import sqfsimg as S
+    root_user = os.geteuid() == 0
+    flagsets = [f for f in ATTR_FLAGS if root_user or "-O" not in f]
+
+    def node(kind, nb):
+        if kind == "dir":
+            return S.BNode(S.T_DIR, mode=0o705, mtime=4000, children=[(b"inner", S.BNode(S.T_FILE, data=b"inner-data", mode=0o604, mtime=4100))])
+        if kind == "symlink":
+            return S.BNode(S.T_SLINK, mode=0o777, mtime=4000, target=b"ok")
+        if kind == "fifo":
+            return S.BNode(S.T_FIFO, mode=0o602, mtime=4000)
+        return S.BNode(S.T_FILE, data=b"data-" + nb, mode=0o606, mtime=4000)
+
+    def image(extra):
+        kids = sorted(extra + [(b"ok", S.BNode(S.T_FILE, data=b"okdata", mode=0o600, mtime=1000)),
+                               (b"lnk", S.BNode(S.T_SLINK, mode=0o777, mtime=1500, target=b"ok")),
+                               (b"zz", S.BNode(S.T_FILE, data=b"zzdata", mode=0o711, mtime=2000)),
+                               (b"~d", S.BNode(S.T_DIR, mode=0o750, mtime=2500, children=[
+                                   (b"f", S.BNode(S.T_FILE, data=b"f", mode=0o640, mtime=2600))]))])
+        root = S.BNode(S.T_DIR, mode=0o755, children=[(b"sub", S.BNode(S.T_DIR, mode=0o751, mtime=3000, children=kids)),
+                                                      (b"top", S.BNode(S.T_FILE, data=b"top", mode=0o444, mtime=3500))])
+        return S.Builder(root).build()
+
+    def unpack(img_bytes, flags):
+        d = bench.tmp()
+        img = os.path.join(d, "hostile.sqfs")
+        open(img, "wb").write(img_bytes)
+        box = os.path.join(d, "box")
+        out = os.path.join(box, "out")
+        os.makedirs(out)
+        rc, so, err, crashed = bench.run([bench.t["rdsquashfs"], "-q", "-u", "", "-p", out] + list(flags) + [img])
+        tree = []
+        for a, b, c in os.walk(box):
+            for x in sorted(b + c):
+                p = os.path.join(a, x)
+                st = os.lstat(p)
+                e = [os.path.relpath(p, box), "%o" % St.S_IFMT(st.st_mode), "%o" % St.S_IMODE(st.st_mode)]
+                if St.S_ISLNK(st.st_mode):
+                    e.append("->" + os.readlink(p))
+                elif St.S_ISREG(st.st_mode):
+                    e.append(open(p, "rb").read().hex()[:40])
+                if "-T" in flags and rc == 0 and e[0] != "out":
+                    e.append("mtime=%d" % st.st_mtime)
+                if "-O" in flags:
+                    e.append("%d:%d" % (st.st_uid, st.st_gid))
+                tree.append(tuple(e))
+        return dict(rc=rc, crashed=crashed, err=err[-300:], tree=sorted(tree))
+
+    jobs = []
+    for name in HOSTILE_NAMES:
+        for kind in ("file", "symlink", "fifo", "dir"):
+            ep = "rdsquashfs-walks:" + kind
+            if kind in ("fifo", "dir") and name in (" ", "a b", "x.", ".x", "\\", "..x", "x.."):
+                continue
+            for flags in flagsets:
+                fl = " ".join(flags)
+                if only and (only.get("entry_point") != ep or only.get("string") != name or only.get("flags", fl) != fl):
+                    continue
+                if kind != "file" and not only and len(flags) not in (0, 1, 4) :
+                    continue
+                jobs.append((ep, name, kind, flags))
+    if only and not jobs:
+        return [], 0
+    with ThreadPoolExecutor(max_workers=workers) as ex:
+        ref = dict(zip(flagsets, ex.map(lambda f: unpack(image([]), f), flagsets)))
+        obs = list(ex.map(lambda j: unpack(image([(j[1].encode(), node(j[2], j[1].encode()))]), j[3]), jobs))
+    problems, n_ok = [], 0
+    for f in flagsets:
+        if ref[f]["rc"] != 0 or ref[f]["crashed"]:
+            problems.append(("funnel:rdsquashfs-walks:probe-ineffective", "the reference image of the walk probe does not unpack with %r: %s"
+                             % (f, ref[f]["err"]), dict(kind="funnel", entry_point="rdsquashfs-walks", no_input=True)))
+    for (ep, name, kind, flags), ob in zip(jobs, obs):
+        sane = table[name][1]
+        r = ref[flags]
+        why = None
+        if ob["crashed"]:
+            why = "rdsquashfs crashed: %s" % ob["err"]
+        elif not sane:
+            if ob["rc"] != r["rc"] or ob["tree"] != r["tree"]:
+                diff = sorted(set(ob["tree"]) ^ set(r["tree"]))[:3]
+                why = ("the name %r is not sane (is_filename_sane_model): every walk must skip the %s, i.e. behave as on the image "
+                       "without it; but with options %r: rc=%d (without the entry: %d), differing objects %r, %s"
+                       % (name, kind, " ".join(flags), ob["rc"], r["rc"], diff, ob["err"][-160:].strip()))
+            else:
+                n_ok += 1
+        else:
+            ent = [e for e in ob["tree"] if e[0] == "out/sub/" + name]
+            want_mode = {"file": "606", "fifo": "602", "dir": "705"}.get(kind)
+            if ob["rc"] != 0 or not ent:
+                why = "the name %r is sane (is_filename_sane_model) but unpacking the %s with %r gives rc=%d, entry %r, %s" % (
+                    name, kind, " ".join(flags), ob["rc"], ent, ob["err"][-160:].strip())
+            elif "-C" in flags and want_mode and ent[0][2] != want_mode:
+                why = "the name %r is sane but the %s did not get its mode with -C: %r, image says %s" % (name, kind, ent[0], want_mode)
+            elif "-T" in flags and "mtime=4000" not in ent[0]:
+                why = "the name %r is sane but the %s did not get its time stamp with -T: %r, image says 4000" % (name, kind, ent[0])
+            elif set(r["tree"]) - set(ob["tree"]):
+                why = "the name %r is sane but its presence changes what its siblings get (%r): %r" % (
+                    name, " ".join(flags), sorted(set(r["tree"]) - set(ob["tree"]))[:3])
+            else:
+                n_ok += 1
+        if why:
+            problems.append(("funnel:%s:%s" % (ep, "sane-refused" if sane else "insane-not-skipped"),
+                             "entry point %s: %s" % (ep, why),
+                             dict(kind="funnel", entry_point=ep, string=name, flags=" ".join(flags), sane_model=sane,
+                                  image_hex=image([(name.encode(), node(kind, name.encode()))]).hex(),
+                                  command="rdsquashfs -q -u '' -p out %s hostile.sqfs" % " ".join(flags),
+                                  observed=dict(rc=ob["rc"], err=ob["err"], tree=ob["tree"]),
+                                  without_the_entry=dict(rc=r["rc"], tree=r["tree"]))))
+    seen, res = set(), []
+    for p in problems:
+        if p[0] not in seen:
+            seen.add(p[0])
+            res.append(p)
+    return res, len(jobs)
+
+
 def funnel_matrix(bench_root, info, spec_fn, only=None, workers=4):
     """spec_fn(list of str) -> {str: (canonical str | None, sane bool)}  (canon_spec / is_filename_sane_model,
     extracted from the Coq development).
@@ -534,5 +665,8 @@ def funnel_matrix(bench_root, info, spec_fn, only=None, workers=4):
     hp, hn = hostile_names(bench, table, only)
     problems += hp
     stats["rdsquashfs-hostile-name"] = dict(strings=hn, dotdot=0, clean_effective=hn)
+    wp, wn = hostile_walks(bench, table, only, workers)
+    problems += wp
+    stats["rdsquashfs-walks(create/fill/attr x option sets)"] = dict(strings=wn, dotdot=0, clean_effective=wn - len(wp))
     stats["_runs"] = bench.n
     return problems, stats
